@@ -208,10 +208,6 @@ def gen_spec(seed: int, config: str | None = None) -> dict:
                 pool_ex.append("TypeError")
             p["exc"] = rng.choice(pool_ex)
             p["exc_args"] = rng.choice([[], [f"boom{k}"], ["two", k], [f"e{k}", k, None]])
-            if p["raises"] and p["cls"] == "plain" and rng.random() < 0.15:
-                # the declaration depends on state that the function changes before it fails
-                p["raises_late"] = list(p["raises"])
-                p["raises"] = [rng.choice(["OSError", "ZeroDivisionError", "CustomParseError"])]
             if rng.random() < 0.25:
                 # wrapped low-level error: `raise X from Y` (explicit cause) or raised while handling Y (implicit context)
                 p["chain"] = rng.choice(["cause", "cause", "context"]) + ":" + rng.choice(["ValueError", "KeyError", "OSError", "ZeroDivisionError"])
@@ -232,6 +228,10 @@ def gen_spec(seed: int, config: str | None = None) -> dict:
                 p["raises"] = [rng.choice(CAPTURABLE)]
         if entry == "visual_legacy":
             p["raises"] = []
+        if p["behave"] == "raise" and p["raises"] and p["cls"] == "plain" and rng.random() < 0.2:
+            # the declaration depends on state that the function changes before it fails (a pragma found in the input)
+            p["raises_late"] = list(p["raises"])
+            p["raises"] = [rng.choice(["OSError", "ZeroDivisionError", "CustomParseError"])]
         payloads.append(p)
     spec = {
         "property": PROP,
